@@ -57,7 +57,11 @@ def worker(st, ctx):
     res = {"findings": [], "drift": None, "case": [[str(np.round(x, 3)) for x in row] for row in U]}
     c = lw.Unitary(U)
     before = (c.n_modes, c.heralds, c.U_full.copy())
-    mapped = itf.Reck().map(c)
+    try:
+        mapped = itf.Reck().map(c)
+    except Exception as e:  # noqa: BLE001
+        res["findings"].append(("raised", "Reck.map raised %s: %s" % (type(e).__name__, e)))
+        return res
     if (c.n_modes, c.heralds) != before[:2] or np.abs(c.U_full - before[2]).max() > 0:
         res["findings"].append(("argument_changed", "Reck.map changed the circuit passed in"))
     res["findings"] += check_mapping(c, mapped, "monomial %dx%d" % (n, n))
